@@ -182,6 +182,30 @@ func (e *Engine) applySummary(st *State, fr *Frame, callee *ssa.Function, fc *Fu
 			e.oblige(st, fmt.Sprintf("%s.call:%s.requires#%d", shortFn(e.TopFn), shortFn(callee), k), "requires-at-call", where, t)
 		}
 	}
+	// ghost bookkeeping clauses are evaluated in the state before the call
+	type gsUpd struct {
+		kind      string
+		addr, val *Term
+	}
+	var gs []gsUpd
+	if len(fc.GhostSets) > 0 && e.Mode == ModeVerify {
+		base := "vc_" + strings.ReplaceAll(fc.Key(), ".", "_")
+		for i, g := range fc.GhostSets {
+			iv := e.evalSpecVal(st, e.genFn(fc, fmt.Sprintf("%s_gsa%d", base, i)), cargs)
+			tagc, ok := st.concretize(iv[0]).ConstInt()
+			if !ok || tagc == 0 {
+				engineErr("ghostset %q: address does not resolve", g.Addr)
+			}
+			av := e.unbox(st, typeByID[tagc], iv[1])
+			vv := e.evalSpecVal(st, e.genFn(fc, fmt.Sprintf("%s_gsv%d", base, i)), cargs)
+			gs = append(gs, gsUpd{"ghost|" + g.Kind, av[0], vv[0]})
+		}
+	}
+	defer func() {
+		for _, u := range gs {
+			st.heap.arr[u.kind] = Store(st.heap.get(u.kind, ArrSort(SInt)), u.addr, u.val)
+		}
+	}()
 	var results []Val
 	if fc.Pure {
 		results = e.ufResults(st, "pure$"+shortFn(callee), callee.Signature, cargs)
